@@ -42,6 +42,7 @@ inductive GOp where
   | enable | ensure | complete
   | migrate (d : Nat × Nat) (operator : Nat)
   | upgrade (operator : Nat)
+  | setCap (c : Int)          -- `capped::set_cap` called again by the contract (the library allows lowering the cap below the supply)
 
 def ofExcept {α} (f : α → St) : Except Err α → St
   | .ok a => f a
@@ -88,6 +89,7 @@ def applyBEx (cfg : Cfg) (s : LEx) (auth : List Nat) : GOp → Option St
 
 def applyCap (cfg : Cfg) (s : CTok) (auth : List Nat) : GOp → Option St
   | .tok o => okSt .cap (CTok.apply cfg s auth o)
+  | .setCap c => okSt .cap (setCap s c)
   | _ => none
 
 /-- migration: which entry points the installed executable exposes (`v` = 0 harness contract with
@@ -296,7 +298,7 @@ def modelObs (x : MSt) (ok : Bool) (ev : List GEvent) : Obs := ⟨ok, stableOf x
 
 inductive GName where
   | pause | unpause | increment | reset | allow | block | disallow | unblock
-  | enable | ensure | complete | migrate | upgrade
+  | enable | ensure | complete | migrate | upgrade | setcap
   | other (s : String)
   deriving DecidableEq
 
@@ -305,6 +307,7 @@ def GName.name : GName → String
   | .allow => "allow" | .block => "block" | .disallow => "disallow" | .unblock => "unblock"
   | .enable => "enable" | .ensure => "ensure" | .complete => "complete" | .migrate => "migrate"
   | .upgrade => "upgrade"
+  | .setcap => "setcap"
   | .other s => s
 
 /-- first two words of an op line -/
@@ -338,7 +341,8 @@ structure Mon where
   kind : MKind
   owner : Nat
   mgr : Nat
-  cap : Int
+  cap : Int                   -- the cap in force: the constructor's, then that of the last accepted `set_cap`
+  sup : Int                   -- total supply observed after the previous call (0 at deployment)
   paused : Bool               -- ghost flag: moved only by accepted pause / unpause calls
   ghost : Nat → Bool          -- list status per party, from accepted list changes only
   credit : Bool               -- an enable / upgrade happened since the last completed migration
@@ -358,7 +362,7 @@ def MKind.isEx : MKind → Bool
 
 /-- the monitor's initial state for a sequence -/
 def monInit (p : Params) : Mon :=
-  { kind := p.kind, owner := p.owner, mgr := p.mgr, cap := p.cap, paused := false,
+  { kind := p.kind, owner := p.owner, mgr := p.mgr, cap := p.cap, sup := 0, paused := false,
     ghost := fun i => decide (p.kind = .aex ∧ i = p.owner), credit := false, prev := none }
 
 /-! ### ghost updates (from the op line and the IMPLEMENTATION's verdict only) -/
@@ -507,14 +511,21 @@ def vListEv (m : Mon) (l : Line) (o : Obs) : Option String :=
 
 def showCap (c : Option Int) : String := match c with | some c => toString c | none => "?"
 
+/-- the cap in force after the call: an accepted `set_cap` installs the cap the contract now reports -/
+def capStep (m : Mon) (l : Line) (o : Obs) : Int :=
+  if o.ok ∧ l.call = .gate .setcap then o.st.cap.getD m.cap else m.cap
+
 def vCap (m : Mon) (l : Line) (o : Obs) : Option String :=
   if m.kind ≠ .cap then none
+  else if o.ok ∧ l.call = .gate .setcap ∧ o.st.cap.getD (-1) < 0 then
+    some s!"site=capped.setcap an accepted set_cap left the cap {showCap o.st.cap} (negative or unset)"
+  else if o.ok ∧ l.call = .gate .setcap then none
   else if l.idle ∧ o.st.cap ≠ some m.cap then
     some s!"site=cap.idle.changed the cap went from {m.cap} to {showCap o.st.cap} while nothing was called (ledger moved by {l.n})"
   else if o.st.cap ≠ some m.cap then
     some s!"site=capped.cap the cap moved from {m.cap} to {showCap o.st.cap}"
-  else if o.st.sup > m.cap then
-    some s!"site=capped.exceeded total_supply {o.st.sup} > cap {m.cap}"
+  else if m.sup < o.st.sup ∧ o.st.sup > m.cap then
+    some s!"site=capped.exceeded a call lifted total_supply from {m.sup} to {o.st.sup} > cap {m.cap}"
   else none
 
 def vMig (m : Mon) (l : Line) (o : Obs) : Option String :=
@@ -541,8 +552,8 @@ def verdict (m : Mon) (l : Line) (o : Obs) : Option String :=
 
 /-- the monitor's step on parsed values -/
 def checkCore (m : Mon) (l : Line) (o : Obs) : Mon × Option String :=
-  ({ m with paused := pausedStep m l o.ok, ghost := ghostStep m l o.ok, credit := creditStep m l o.ok,
-            prev := some o.st },
+  ({ m with cap := capStep m l o, sup := o.st.sup, paused := pausedStep m l o.ok, ghost := ghostStep m l o.ok,
+            credit := creditStep m l o.ok, prev := some o.st },
    verdict m l o)
 
 end OZ.Gates.Mon
